@@ -3103,3 +3103,70 @@ def rule_no_swallow(ctx: Ctx, rid="C06.NO-SWALLOW"):
         else:
             ctx.rep.ok(rid, con, "no construct swallows an error in flight", site=m.site(fn))
     ctx.rep.floor("compile-path functions scanned for swallowed errors", n, 5)
+
+
+# ------------------------------------------------------------------ interpreter-wide int<->str digit cap
+_CAP_CONTROL = """
+import sys
+_CAP = 640
+def lowered_and_kept(text):
+    sys.set_int_max_str_digits(_CAP)
+    parse(text)
+    sys.set_int_max_str_digits(4300)
+def lowered_and_restored(text):
+    old = sys.get_int_max_str_digits()
+    sys.set_int_max_str_digits(640)
+    try:
+        parse(text)
+    finally:
+        sys.set_int_max_str_digits(old)
+"""
+
+
+def _unrestored_digit_caps(tree):
+    """[(function node, call node, cap)]: calls `sys.set_int_max_str_digits(<constant 1..4299>)` (a cap below CPython's default) in a
+    function with no `finally` that calls the setter again: when the step in between raises, the lower cap stays for the process."""
+    out = []
+    consts = {}
+    for st in tree.body:          # module-level integer constants (`_MAX_DIGITS = 640`), assigned once
+        tg = st.targets if isinstance(st, ast.Assign) else ([st.target] if isinstance(st, ast.AnnAssign) and st.value is not None else [])
+        for t in tg:
+            if isinstance(t, ast.Name):
+                v = st.value
+                consts[t.id] = v.value if (isinstance(v, ast.Constant) and isinstance(v.value, int) and not isinstance(v.value, bool)
+                                           and t.id not in consts) else None
+
+    def cap_of(a):
+        if isinstance(a, ast.Constant) and isinstance(a.value, int) and not isinstance(a.value, bool):
+            return a.value
+        if isinstance(a, ast.Name):
+            return consts.get(a.id)
+        return None
+    for fn in ast.walk(tree):
+        if not isinstance(fn, (ast.FunctionDef, ast.AsyncFunctionDef)):
+            continue
+        setter = lambda c: isinstance(c, ast.Call) and (dotted(c.func) or "").split(".")[-1] == "set_int_max_str_digits"   # noqa: E731
+        restores = any(setter(c) for t in ast.walk(fn) if isinstance(t, ast.Try) for st in t.finalbody for c in ast.walk(st))
+        for c in ast.walk(fn):
+            cap = cap_of(c.args[0]) if setter(c) and c.args else None
+            if cap is not None and 0 < cap < 4300 and not restores:
+                out.append((fn, c, cap))
+    return out
+
+
+def rule_digit_cap_restored(ctx: Ctx, rid="C15.DIGIT-CAP-RESTORED"):
+    """The package does not leave CPython's process-wide cap on int <-> str conversion lowered: str() of an int splitter is on every
+    evaluation path, so a cap that stays below the default after a failed step makes every later evaluation of a long int raise."""
+    control = _unrestored_digit_caps(ast.parse(_CAP_CONTROL))
+    if [f.name for f, _, _ in control] != ["lowered_and_kept"]:
+        raise AnalysisError("the digit-cap matcher no longer tells its own positive example from the negative one")
+    n = 0
+    for m in ctx.src.own_modules():
+        n += 1
+        for fn, c, cap in _unrestored_digit_caps(m.tree):
+            ctx.rep.bad(rid, f"{m.rel}:{fn.name}", f"the interpreter-wide cap on int/str conversion is lowered to {cap} digits and no "
+                        "`finally` puts it back: when the step in between raises (a text that does not parse), the cap stays for the "
+                        f"whole process and every later evaluation of an int splitter with more than {cap} digits raises ValueError in "
+                        "the generated `str()`", site=m.site(c), text=f"set_int_max_str_digits({cap}) without finally")
+    ctx.rep.ok(rid, "package modules", f"no function of the {n} package modules lowers the int/str digit cap without restoring it in a "
+               "`finally` (matcher verified on a positive and a negative example)", nontrivial=False)
